@@ -70,6 +70,7 @@ func (fv *FuncVC) loopContract(ord int, n ast.Node) *LoopContract {
 }
 
 type loopCtx struct {
+	pre     *State // state on loop entry: before(e) in invariants
 	ord     int
 	lc      *LoopContract
 	autoInv []autoInv
@@ -89,7 +90,9 @@ func (fv *FuncVC) checkInvariants(lx *loopCtx, st *State, phase string) {
 		return
 	}
 	for i, c := range lx.lc.Invariants {
-		g := fv.specBool(c.Expr, fv.specScope(st, fv.entry, false))
+		sc := fv.specScope(st, fv.entry, false)
+		sc.loopPre = lx.pre
+		g := fv.specBool(c.Expr, sc)
 		fv.oblig(st, "inv", fmt.Sprintf("inv:%d:%d:%s", lx.ord, i+1, phase), c.Text, g)
 		// later invariants may rely on earlier ones
 		fv.addFact(st, g)
@@ -104,7 +107,9 @@ func (fv *FuncVC) assumeInvariants(lx *loopCtx, st *State) {
 		return
 	}
 	for _, c := range lx.lc.Invariants {
-		fv.addFact(st, fv.specBool(c.Expr, fv.specScope(st, fv.entry, false)))
+		sc := fv.specScope(st, fv.entry, false)
+		sc.loopPre = lx.pre
+		fv.addFact(st, fv.specBool(c.Expr, sc))
 	}
 }
 
@@ -153,6 +158,7 @@ func stableTerm(t string, mark int) bool {
 func (fv *FuncVC) runLoop(ls *loopSpec, st *State) *State {
 	lx := ls.lx
 	fv.curPos = ls.pos
+	lx.pre = st.clone()
 	fv.checkInvariants(lx, st, "init")
 	if st.dead() {
 		return st
